@@ -437,3 +437,76 @@ pub fn run_peer(
     drop(stdin);
     Ok(out)
 }
+
+/// Standard input that cannot be read at all (a directory: read(2) fails with
+/// EISDIR): the first listen must end the run with a runtime error, with
+/// everything said before it on standard output and nothing after.
+pub fn run_unreadable_stdin(
+    sc: &Scenario,
+    exp: &Expect,
+    scratch: &Scratch,
+) -> Result<ProcOutcome, String> {
+    crate::driver::heartbeat();
+    let file = scratch
+        .file("peer.rock", sc.source.as_bytes())
+        .map_err(|e| e.to_string())?;
+    let out_path = scratch.path.join("unreadable.out");
+    let err_path = scratch.path.join("unreadable.err");
+    let dir = std::fs::File::open(&scratch.path).map_err(|e| e.to_string())?;
+    let mut cmd = Command::new(rrss_bin());
+    cmd.arg("exec")
+        .arg(&file)
+        .env_clear()
+        .env("RRSS_VERIF_HASH_SEED", "0")
+        .current_dir(&scratch.path)
+        .stdin(Stdio::from(dir))
+        .stdout(Stdio::from(std::fs::File::create(&out_path).map_err(|e| e.to_string())?))
+        .stderr(Stdio::from(std::fs::File::create(&err_path).map_err(|e| e.to_string())?));
+    let mut child = {
+        let _guard = crate::procworld::SPAWN_LOCK
+            .lock()
+            .unwrap_or_else(|e| e.into_inner());
+        cmd.spawn().map_err(|e| format!("cannot spawn rrss: {}", e))?
+    };
+    drop(cmd);
+    let mut out = ProcOutcome {
+        violation: None,
+        spawns: 1,
+        stdout_fault_fired: true,
+    };
+    let exited = wait_exit(&mut child, PATIENCE);
+    if exited.is_none() {
+        let _ = child.kill();
+        let _ = child.wait();
+    }
+    let stdout = std::fs::read(&out_path).unwrap_or_default();
+    let stderr = strip_sgr(&std::fs::read(&err_path).unwrap_or_default());
+    let want = &exp.out[..exp.listen_marks[0]];
+    let problem = if exited.is_none() {
+        Some("the program did not exit".to_string())
+    } else if stdout != want {
+        Some(format!(
+            "standard output is {} bytes, expected exactly the {} bytes said before the first listen",
+            stdout.len(),
+            want.len()
+        ))
+    } else if !crate::procworld::contains(&stderr.to_ascii_lowercase(), b"runtime error") {
+        Some("no runtime error was reported on standard error".to_string())
+    } else {
+        None
+    };
+    if let Some(detail) = problem {
+        out.violation = Some((
+            "C08.X4-process-stdin-fault-is-error",
+            format!("standard input cannot be read (it is a directory), but {}", detail),
+            J::obj(vec![
+                ("arm", J::s("process: real `rrss exec` with standard input that fails on every read")),
+                ("program", J::s(sc.source.clone())),
+                ("expected_output_before_first_listen", J::S(render_bytes(want))),
+                ("stdout", J::S(render_bytes(&stdout))),
+                ("stderr", J::S(render_bytes(&stderr))),
+            ]),
+        ));
+    }
+    Ok(out)
+}
